@@ -736,6 +736,56 @@ def gen_wire():
             raise ExtractError(f"wire formatter {name}: {tmpl!r} with arguments {args} is not a plain positional format")
         out.append(f"  -- {name}: {tmpl!r} <- {', '.join(args)}")
         out.append(f"  ({bytes_lit(name)}, {bytes_lit(tmpl)}, [" + ", ".join(bytes_lit(a) for a in args) + "])" + ("," if ix + 1 < len(WIRE_SITES) else ""))
+    out += ["]", ""]
+    # the lines printed inline by the arms of replicate_request (and the three announcements printed elsewhere): every format! of a plain
+    # positional text that starts with a command word, in source order, duplicates dropped
+    def formats_in(body_raw, body_blank):
+        rows = []
+        for m in re.finditer(r"(?<![\w:!])format!\s*\(\s*\"", body_blank):
+            i = m.end(); j = body_blank.index('"', i)
+            tmpl = unescape(body_raw[i:j])
+            k = j + 1; depth = 1; args_txt = ""
+            while depth > 0:
+                c = body_blank[k]
+                if c == "(": depth += 1
+                elif c == ")": depth -= 1
+                if depth > 0: args_txt += c
+                k += 1
+            parts = []; cur = ""; d = 0
+            for c in args_txt:
+                if c in "([": d += 1
+                if c in ")]": d -= 1
+                if c == "," and d == 0: parts.append(cur); cur = ""
+                else: cur += c
+            parts.append(cur)
+            args = [re.sub(r"\s+", "", a) for a in parts if a.strip()]
+            # (string literals inside the arguments were blanked: recover them from the raw text)
+            raw_args_txt = body_raw[j + 1:k - 1]
+            rparts = []; cur = ""; d = 0; q = False
+            for c in raw_args_txt:
+                if c == '"': q = not q
+                if not q and c in "([": d += 1
+                if not q and c in ")]": d -= 1
+                if c == "," and d == 0 and not q: rparts.append(cur); cur = ""
+                else: cur += c
+            rparts.append(cur)
+            rargs = [re.sub(r"\s+", "", a) for a in rparts if a.strip()]
+            if re.match(r"[a-z][a-z-]*( [a-z]+)? \{\}", tmpl) and "{" not in tmpl.replace("{}", "") and tmpl.count("{}") == len(rargs):
+                rows.append((tmpl, rargs))
+        return rows
+    raw, b = fn_body("replication_ops.rs", r"pub fn replicate_request\s*\(", "replicate_request")
+    arms = formats_in(raw, b)
+    text = src("replication_ops.rs"); bt = blank(text)
+    extra = [r for r in formats_in(text, bt) if r[0].split(" ")[0] in ("set-primary", "set-secoundary", "secoundary", "replicate-join")]
+    seen = []; 
+    for r in arms + extra:
+        if r not in seen: seen.append(r)
+    if len(seen) < 6: raise ExtractError(f"inline wire formats: only {len(seen)} found")
+    out += ["/-- the lines printed inline: (format text, arguments in order) -/",
+            "def wireArmFormats : List (List Nat × List (List Nat)) := ["]
+    for ix, (tmpl, args) in enumerate(seen):
+        out.append(f"  -- {tmpl!r} <- {', '.join(args)}")
+        out.append(f"  ({bytes_lit(tmpl)}, [" + ", ".join(bytes_lit(a) for a in args) + "])" + ("," if ix + 1 < len(seen) else ""))
     out += ["]", "", "end Nun.Gen", ""]
     return "\n".join(out)
 
